@@ -623,9 +623,105 @@ def r13_5(ctx):
               "Segment.cell_length is no longer `0 if is_control else cell_len(text)`")
 
 
+CELL_PARAMS = {
+    "cells:set_cell_size": {"total"},
+    "cells:chop_cells": {"max_size", "position"},
+    "segment:Segment.adjust_line_length": {"length"},
+    "segment:Segment.split_and_crop_lines": {"length"},
+    "segment:Segment.set_shape": {"width"},
+}
+CELL_CALLS = {"cell_len", "get_character_cell_size", "_get_character_cell_size", "_get_codepoint_cell_size", "_get_size", "get_line_length"}
+
+
+def r13_7(ctx):
+    ctx.rule("R13.7", "units: a quantity measured in terminal cells (cell_len, per-character cell sizes, the requested size parameters) is never used where a character count is required (string slice bounds / indices) nor added to one; character counts come from len() of strings / per-character lists")
+    n = 0
+    for spec, cparams in CELL_PARAMS.items():
+        f = ctx.repo.fn(spec)
+        mod = f.module
+        aliases = alias_map(f.node)
+        unit: Dict[str, str] = {p: "cells" for p in cparams}
+        cell_lists: Set[str] = set()
+
+        def u(e) -> Optional[str]:
+            if isinstance(e, ast.Constant):
+                return "const"
+            if isinstance(e, ast.Name):
+                return unit.get(e.id)
+            if isinstance(e, ast.Attribute) and e.attr in ("cell_length", "cell_len"):
+                return "cells"
+            if isinstance(e, ast.Call):
+                cn = norm(expand_alias(e.func, aliases))
+                if cn.split(".")[-1] in CELL_CALLS:
+                    return "cells"
+                if cn == "len":
+                    return "chars"
+                if cn == "sum" and e.args and isinstance(e.args[0], (ast.GeneratorExp, ast.ListComp)):
+                    return u(e.args[0].elt)
+                if cn in ("min", "max") and e.args:
+                    us = {u(a) for a in e.args} - {"const", None}
+                    return us.pop() if len(us) == 1 else None
+                if isinstance(e.func, ast.Attribute) and e.func.attr == "pop" and norm(expand_alias(e.func.value, aliases)) in cell_lists:
+                    return "cells"
+                if isinstance(e.func, ast.Name) and e.func.id in aliases and norm(aliases[e.func.id]).endswith(".pop") and norm(aliases[e.func.id]).rsplit(".", 1)[0] in cell_lists:
+                    return "cells"
+                return None
+            if isinstance(e, ast.BinOp) and isinstance(e.op, (ast.Add, ast.Sub)):
+                a, b = u(e.left), u(e.right)
+                us = {a, b} - {"const", None}
+                if len(us) == 1:
+                    return us.pop()
+                if len(us) == 2:
+                    return "mixed"
+                return None
+            if isinstance(e, ast.BinOp) and isinstance(e.op, (ast.FloorDiv, ast.Mult, ast.Mod)):
+                return u(e.left) if u(e.right) in ("const", None) else (u(e.right) if u(e.left) in ("const", None) else None)
+            if isinstance(e, ast.UnaryOp):
+                return u(e.operand)
+            return None
+
+        for _ in range(4):
+            for x in walk_local(f.node):
+                if isinstance(x, ast.Assign) and len(x.targets) == 1 and isinstance(x.targets[0], ast.Name):
+                    name = x.targets[0].id
+                    v = x.value
+                    if isinstance(v, ast.ListComp) and u(v.elt) == "cells":
+                        cell_lists.add(name)
+                        continue
+                    uu = u(v)
+                    if uu in ("cells", "chars") and unit.get(name) in (None, uu):
+                        unit[name] = uu
+                elif isinstance(x, ast.AugAssign) and isinstance(x.target, ast.Name):
+                    uu = u(x.value)
+                    if uu in ("cells", "chars") and unit.get(x.target.id) is None:
+                        unit[x.target.id] = uu
+                elif isinstance(x, ast.Assign) and isinstance(x.targets[0], ast.Tuple) and isinstance(x.value, ast.Call):
+                    pass
+        for x in walk_local(f.node):
+            if isinstance(x, ast.Subscript) and isinstance(x.ctx, ast.Load):
+                base_is_str = isinstance(x.value, ast.Name) and x.value.id in ("text", "_text", "line_token") or (isinstance(x.value, ast.Attribute) and x.value.attr in ("text", "plain"))
+                if not base_is_str:
+                    continue
+                bounds = [b for b in ((x.slice.lower, x.slice.upper) if isinstance(x.slice, ast.Slice) else (x.slice,)) if b is not None]
+                for b in bounds:
+                    n += 1
+                    uu = u(b)
+                    ctx.check(uu not in ("cells", "mixed"), f.fq, short(x), f"{mod.relpath}:{x.lineno}", f"string index `{norm(b)}` is a character count ({uu or 'unitless'})",
+                              f"`{short(x)}` indexes a string with `{norm(b)}`, a quantity measured in terminal cells: for wide (2-cell) or zero-width characters the cut lands on the wrong character and the result does not have the requested cell width")
+            if isinstance(x, ast.BinOp) and isinstance(x.op, (ast.Add, ast.Sub)):
+                if u(x) == "mixed" and u(x.left) != "mixed" and u(x.right) != "mixed":
+                    n += 1
+                    ctx.violation(f.fq, short(x), f"{mod.relpath}:{x.lineno}", f"`{short(x)}` adds a cell width to a character count: the two only agree for text made of 1-cell characters")
+            if isinstance(x, ast.Call) and norm(expand_alias(x.func, aliases)).endswith("set_cell_size") and len(x.args) == 2:
+                n += 1
+                uu = u(x.args[1])
+                ctx.check(uu != "chars", f.fq, short(x), f"{mod.relpath}:{x.lineno}", "target size passed to set_cell_size is a cell count", f"`{short(x)}` passes a character count where a cell width is required")
+    ctx.floor(n, 2, "unit-sensitive sites")
+
+
 def r13_6(ctx):
     from .common import memo_rule
     memo_rule(ctx, "R13.6", ["cells", "_lru_cache", "segment"], 2)
 
 
-RULES = [r13_1, r13_2, r13_3, r13_4, r13_5, r13_6]
+RULES = [r13_1, r13_2, r13_3, r13_4, r13_5, r13_6, r13_7]
